@@ -65,8 +65,8 @@ class Case:
         kind = "cls" if mode in ("multi-class", "categorical") else "reg"
         if mode is not None:
             kind += "-plain"
-        bs = 2
-        nb, nvb = sp["batches"], (1 if sp["val"] else 0)
+        bs = sp.get("bs", 2)
+        nb, nvb = sp["batches"], (sp.get("val_batches", 1) if sp["val"] else 0)
 
         def data(prefix, n):
             if mode is not None and (sp["val"] or sp["epochs"] > 1) and prefix == "t":
@@ -222,9 +222,12 @@ class Case:
                     vl = val_losses[ep * nvb:(ep + 1) * nvb]
                     vals = [E.flat_nodes(e[1].data)[0][0] if env.sym else float(np.asarray(e[1].data)) for e in vl]
                     if vals:
-                        exp = (S(vals[0]) if env.sym else vals[0])
-                        out.pair("epoch %d val_loss is the mean of its batch losses" % ep, [history["val_loss"][ep]], [exp])
+                        tot = (S(vals[0]) if env.sym else vals[0])
+                        for v in vals[1:]:
+                            tot = tot + (S(v) if env.sym else v)
+                        out.pair("epoch %d val_loss is the mean of its batch losses" % ep, [history["val_loss"][ep]], [tot / len(vals)])
         # ---- metrics: accuracy = fraction of correct predictions under the selected label mode
+        tallies = []
         for e in log:
             if e[0] != "metric":
                 continue
@@ -242,6 +245,7 @@ class Case:
                 else:
                     true = [int(lab[i]) for i in range(n)]
             acc = sum(1 for a, b in zip(pred, true) if a == b) / n
+            tallies.append((prefix, n, sum(1 for a, b in zip(pred, true) if a == b)))
             name = ("%s_accuracy" % prefix) if prefix else "accuracy"
             if sp.get("metric_callbacks"):
                 ename = ("%s_error_rate" % prefix) if prefix else "error_rate"
@@ -251,6 +255,21 @@ class Case:
             got = dict(r).get(name)
             out.fact("step accuracy is the fraction of correct predictions (%s)" % mode, got is not None and abs(float(got) - acc) < 1e-9,
                      "reported %s, fraction of matches %s" % (got, acc))
+        # ---- the per-epoch metric values in the history: the fraction correct over all samples the epoch saw (training and
+        #      validation kept apart, nothing carried over from an earlier epoch)
+        if mode is not None and sp["epochs"] > 0 and len(tallies) == sp["epochs"] * (nb + nvb):
+            per = nb + nvb
+            for ep in range(sp["epochs"]):
+                chunk = tallies[ep * per:(ep + 1) * per]
+                for pref, part in ((None, chunk[:nb]), ("val", chunk[nb:])):
+                    if not part:
+                        continue
+                    want = sum(m_ for _, _, m_ in part) / sum(n_ for _, n_, _ in part)
+                    key = "val_accuracy" if pref else "accuracy"
+                    got = history.get(key, [None] * sp["epochs"])
+                    got = got[ep] if len(got) > ep else None
+                    out.fact("history[%s][%d] is the fraction correct over the epoch's samples" % (key, ep),
+                             got is not None and abs(float(got) - want) < 1e-9, "history %s, fraction %s" % (got, want))
         # ---- trajectory: the parameters after fit equal those of a hand-rolled loop (zero_grad, backward, step per batch,
         #      training mode) on an identical model; validation in between must not have changed anything
         ropt = optim.SGD(ref_model.parameters(), lr=lr)
@@ -332,6 +351,11 @@ def enumerate_specs(tier):
             specs.append({"epochs": 1, "batches": 1, "val": val, "evaluator": mode, "grad_on_entry": True, "test": False})
         if tier != "quick":
             specs.append({"epochs": 2, "batches": 1, "val": True, "evaluator": mode, "grad_on_entry": True, "test": True})
+    for mode in ("binary", "multi-class", "categorical"):
+        # batches of one sample (the batch dimension must survive every squeeze), two training and two validation batches
+        specs.append({"epochs": 1, "batches": 2, "val": True, "evaluator": mode, "grad_on_entry": True, "test": False, "bs": 1})
+        specs.append({"epochs": 2 if tier != "quick" else 1, "batches": 2, "val": True, "evaluator": mode, "grad_on_entry": True,
+                      "test": False, "val_batches": 2})
     for mode, val in (("binary", True), ("multi-class", False)) + ((("categorical", True),) if tier != "quick" else ()):
         specs.append({"epochs": 1 if val else 2, "batches": 1, "val": val, "evaluator": mode, "grad_on_entry": True, "test": False,
                       "metric_callbacks": True})
